@@ -6,6 +6,13 @@ import KotoVerif.Model.CoreEval
 namespace KotoVerif.C01
 open KotoVerif KotoVerif.Core
 
+/-- a `FloatOps` instance for kernel-evaluated examples (theorems never depend on it) -/
+def stubFloatOps : FloatOps :=
+  { add := fun a _ => a, sub := fun a _ => a, mul := fun a _ => a, div := fun a _ => a,
+    rem := fun a _ => a, pow := fun a _ => a, neg := id, lt := fun _ _ => false,
+    le := fun _ _ => false, eq := fun _ _ => false, ofInt := fun n => n.toUInt64,
+    toInt := fun b => b.toInt64, isNaN := fun _ => false }
+
 /-- one-step unfoldings of the evaluator (definitional) -/
 theorem eval_and (F : FloatOps) (n : Nat) (a b : Expr) (s : St) :
     eval F (n + 1) (.and a b) s
@@ -16,5 +23,291 @@ theorem eval_or (F : FloatOps) (n : Nat) (a b : Expr) (s : St) :
     eval F (n + 1) (.or a b) s
       = seq (eval F n a s) fun va s => if va.truthy then (.ok va, s) else eval F n b s := by
   simp [eval]
+
+theorem eval_ifThen (F : FloatOps) (n : Nat) (c t : Expr) (s : St) :
+    eval F (n + 1) (.ifThen c t) s
+      = seq (eval F n c s) fun vc s => if vc.truthy then eval F n t s else (.ok .null, s) := by
+  simp [eval]
+
+theorem eval_switch (F : FloatOps) (n : Nat) (arms : Arms) (s : St) :
+    eval F (n + 1) (.switch arms) s = evalArms F n arms s := by
+  simp [eval]
+
+theorem evalArms_nil (F : FloatOps) (n : Nat) (s : St) :
+    evalArms F (n + 1) .nil s = (.ok .null, s) := by
+  simp [evalArms]
+
+theorem evalArms_cons (F : FloatOps) (n : Nat) (c e : Expr) (rest : Arms) (s : St) :
+    evalArms F (n + 1) (.cons c e rest) s
+      = seq (eval F n c s) fun vc s => if vc.truthy then eval F n e s else evalArms F n rest s := by
+  simp [evalArms]
+
+theorem eval_while (F : FloatOps) (n : Nat) (c b : Expr) (s : St) :
+    eval F (n + 1) (.while c b) s = evalLoop F n (some (c, false)) b .null s := by
+  simp [eval]
+
+theorem eval_until (F : FloatOps) (n : Nat) (c b : Expr) (s : St) :
+    eval F (n + 1) (.until c b) s = evalLoop F n (some (c, true)) b .null s := by
+  simp [eval]
+
+theorem eval_loop (F : FloatOps) (n : Nat) (b : Expr) (s : St) :
+    eval F (n + 1) (.loop b) s = evalLoop F n none b .null s := by
+  simp [eval]
+
+theorem evalLoop_cond (F : FloatOps) (n : Nat) (c : Expr) (neg : Bool) (b : Expr) (acc : Val) (s : St) :
+    evalLoop F (n + 1) (some (c, neg)) b acc s
+      = seq (eval F n c s) fun vc s =>
+          if vc.truthy != neg then
+            loopStep (eval F n b s) fun v s => evalLoop F n (some (c, neg)) b v s
+          else (.ok acc, s) := by
+  simp [evalLoop]
+
+theorem evalLoop_none (F : FloatOps) (n : Nat) (b : Expr) (acc : Val) (s : St) :
+    evalLoop F (n + 1) none b acc s
+      = loopStep (eval F n b s) fun v s => evalLoop F n none b v s := by
+  simp [evalLoop]
+
+theorem eval_for (F : FloatOps) (n x : Nat) (it b : Expr) (s s₁ : St) (vi : Val) (items : List Val)
+    (hi : eval F n it s = (.ok vi, s₁)) (hitems : iterItems vi = .ok items) :
+    eval F (n + 1) (.for x it b) s = evalFor F n x items b .null s₁ := by
+  rw [eval]; simp only [hi, seq, hitems]
+
+theorem evalFor_nil (F : FloatOps) (n x : Nat) (b : Expr) (acc : Val) (s : St) :
+    evalFor F (n + 1) x [] b acc s = (.ok acc, s) := by
+  simp [evalFor]
+
+theorem eval_assign (F : FloatOps) (n x : Nat) (e : Expr) (s : St) :
+    eval F (n + 1) (.assign x e) s = seq (eval F n e s) fun v s => (.ok v, s.set x v) := by
+  simp [eval]
+
+theorem eval_opAssign (F : FloatOps) (n x : Nat) (op : ArithOp) (e : Expr) (s s₁ : St) (v₀ v₁ : Val)
+    (hx : lookup x s.env = some v₀) (he : eval F n e s = (.ok v₁, s₁)) :
+    eval F (n + 1) (.opAssign op x e) s
+      = (match opAssignV F op v₀ v₁ with
+         | .ok r => (.ok r, s₁.set x r)
+         | .error e => (.err e, s₁)) := by
+  rw [eval]; simp only [hx, he, seq]; cases opAssignV F op v₀ v₁ <;> rfl
+
+theorem eval_pos {F : FloatOps} {n : Nat} {e : Expr} {s s₁ : St} {v : Val}
+    (h : eval F n e s = (.ok v, s₁)) : ∃ k, n = k + 1 := by
+  cases n with
+  | zero => simp [eval] at h
+  | succ k => exact ⟨k, rfl⟩
+
+
+/-! ### more fuel never changes a finished result -/
+
+/-- `r` is unfinished (out of fuel) or equals `r'` -/
+def Upto {α : Type} (r r' : Res α × St) : Prop := (∃ s, r = (.nofuel, s)) ∨ r = r'
+
+theorem upto_refl {α} (r : Res α × St) : Upto r r := Or.inr rfl
+theorem upto_nofuel {α} (s : St) (r' : Res α × St) : Upto (.nofuel, s) r' := Or.inl ⟨s, rfl⟩
+
+theorem upto_seq {α β} {r r' : Res α × St} {k k' : α → St → Res β × St}
+    (h : Upto r r') (hk : ∀ v s, Upto (k v s) (k' v s)) : Upto (seq r k) (seq r' k') := by
+  rcases h with ⟨s, rfl⟩ | rfl
+  · exact Or.inl ⟨s, rfl⟩
+  · rcases r with ⟨res, s⟩
+    cases res with
+    | ok v => exact hk v s
+    | _ => exact Or.inr rfl
+
+theorem upto_loopStep {r r' : Res Val × St} {k k' : Val → St → Res Val × St}
+    (h : Upto r r') (hk : ∀ v s, Upto (k v s) (k' v s)) : Upto (loopStep r k) (loopStep r' k') := by
+  rcases h with ⟨s, rfl⟩ | rfl
+  · exact Or.inl ⟨s, rfl⟩
+  · rcases r with ⟨res, s⟩
+    cases res with
+    | ok v => exact hk v s
+    | cont => exact hk .null s
+    | _ => exact Or.inr rfl
+
+theorem fuel_mono_succ (F : FloatOps) : ∀ n,
+    (∀ e s, Upto (eval F n e s) (eval F (n + 1) e s))
+    ∧ (∀ es s, Upto (evalList F n es s) (evalList F (n + 1) es s))
+    ∧ (∀ v ch s, Upto (evalChain F n v ch s) (evalChain F (n + 1) v ch s))
+    ∧ (∀ es acc s, Upto (evalEntries F n es acc s) (evalEntries F (n + 1) es acc s))
+    ∧ (∀ arms s, Upto (evalArms F n arms s) (evalArms F (n + 1) arms s))
+    ∧ (∀ es last s, Upto (evalBlock F n es last s) (evalBlock F (n + 1) es last s))
+    ∧ (∀ c b acc s, Upto (evalLoop F n c b acc s) (evalLoop F (n + 1) c b acc s))
+    ∧ (∀ x items b acc s, Upto (evalFor F n x items b acc s) (evalFor F (n + 1) x items b acc s)) := by
+  intro n
+  induction n with
+  | zero =>
+    refine ⟨?_, ?_, ?_, ?_, ?_, ?_, ?_, ?_⟩ <;> intros
+    · exact Or.inl ⟨_, by rw [eval]⟩
+    · exact Or.inl ⟨_, by rw [evalList]⟩
+    · exact Or.inl ⟨_, by rw [evalChain]⟩
+    · exact Or.inl ⟨_, by rw [evalEntries]⟩
+    · exact Or.inl ⟨_, by rw [evalArms]⟩
+    · exact Or.inl ⟨_, by rw [evalBlock]⟩
+    · exact Or.inl ⟨_, by rw [evalLoop]⟩
+    · exact Or.inl ⟨_, by rw [evalFor]⟩
+  | succ n ih =>
+    obtain ⟨ihE, ihL, ihC, ihM, ihA, ihB, ihW, ihF⟩ := ih
+    refine ⟨?_, ?_, ?_, ?_, ?_, ?_, ?_, ?_⟩
+    · intro e s
+      cases e <;> simp only [eval] <;>
+        repeat (first
+          | exact upto_refl _
+          | apply ihE | apply ihL | apply ihC | apply ihM | apply ihA | apply ihB | apply ihW | apply ihF
+          | apply upto_seq | apply upto_loopStep
+          | intro _ _
+          | split)
+    · intro es s
+      cases es <;> simp only [evalList] <;>
+        repeat (first
+          | exact upto_refl _
+          | apply ihE | apply ihL | apply ihC | apply ihM | apply ihA | apply ihB | apply ihW | apply ihF
+          | apply upto_seq | apply upto_loopStep
+          | intro _ _
+          | split)
+    · intro v ch s
+      cases ch <;> simp only [evalChain] <;>
+        repeat (first
+          | exact upto_refl _
+          | apply ihE | apply ihL | apply ihC | apply ihM | apply ihA | apply ihB | apply ihW | apply ihF
+          | apply upto_seq | apply upto_loopStep
+          | intro _ _
+          | split)
+    · intro es acc s
+      cases es <;> simp only [evalEntries] <;>
+        repeat (first
+          | exact upto_refl _
+          | apply ihE | apply ihL | apply ihC | apply ihM | apply ihA | apply ihB | apply ihW | apply ihF
+          | apply upto_seq | apply upto_loopStep
+          | intro _ _
+          | split)
+    · intro arms s
+      cases arms <;> simp only [evalArms] <;>
+        repeat (first
+          | exact upto_refl _
+          | apply ihE | apply ihL | apply ihC | apply ihM | apply ihA | apply ihB | apply ihW | apply ihF
+          | apply upto_seq | apply upto_loopStep
+          | intro _ _
+          | split)
+    · intro es last s
+      cases es <;> simp only [evalBlock] <;>
+        repeat (first
+          | exact upto_refl _
+          | apply ihE | apply ihL | apply ihC | apply ihM | apply ihA | apply ihB | apply ihW | apply ihF
+          | apply upto_seq | apply upto_loopStep
+          | intro _ _
+          | split)
+    · intro c b acc s
+      simp only [evalLoop]
+      repeat (first
+          | exact upto_refl _
+          | apply ihE | apply ihL | apply ihC | apply ihM | apply ihA | apply ihB | apply ihW | apply ihF
+          | apply upto_seq | apply upto_loopStep
+          | intro _ _
+          | split)
+    · intro x items b acc s
+      simp only [evalFor]
+      repeat (first
+          | exact upto_refl _
+          | apply ihE | apply ihL | apply ihC | apply ihM | apply ihA | apply ihB | apply ihW | apply ihF
+          | apply upto_seq | apply upto_loopStep
+          | intro _ _
+          | split)
+
+/-! ### the output trace is append-only -/
+
+/-- the state of outcome `r` extends the output of `s` -/
+def Ext {α : Type} (s : St) (r : Res α × St) : Prop := ∃ t, r.2.out = s.out ++ t
+
+theorem ext_refl {α} (s : St) (x : Res α) : Ext s (x, s) := ⟨[], by simp⟩
+theorem ext_set {α} (s : St) (x : Res α) (y : Nat) (v : Val) : Ext s (x, s.set y v) := ⟨[], by simp [St.set]⟩
+theorem ext_push {α} (s : St) (x : Res α) (e : Ev) : Ext s (x, s.push e) := ⟨[e], by simp [St.push]⟩
+theorem ext_lift {α} (s : St) (x : Except Err α) : Ext s (lift x s) := by
+  cases x <;> exact ⟨[], by simp [lift]⟩
+
+theorem ext_trans {α} {s s₁ : St} {r : Res α × St} (h₁ : ∃ t, s₁.out = s.out ++ t) (h₂ : Ext s₁ r) :
+    Ext s r := by
+  obtain ⟨t₁, h₁⟩ := h₁
+  obtain ⟨t₂, h₂⟩ := h₂
+  exact ⟨t₁ ++ t₂, by rw [h₂, h₁, List.append_assoc]⟩
+
+theorem ext_seq {α β} {s : St} {r : Res α × St} {k : α → St → Res β × St}
+    (h : Ext s r) (hk : ∀ v s', Ext s' (k v s')) : Ext s (seq r k) := by
+  rcases r with ⟨res, s₁⟩
+  cases res with
+  | ok v => exact ext_trans h (hk v s₁)
+  | _ => exact h
+
+theorem ext_loopStep {s : St} {r : Res Val × St} {k : Val → St → Res Val × St}
+    (h : Ext s r) (hk : ∀ v s', Ext s' (k v s')) : Ext s (loopStep r k) := by
+  rcases r with ⟨res, s₁⟩
+  cases res with
+  | ok v => exact ext_trans h (hk v s₁)
+  | cont => exact ext_trans h (hk .null s₁)
+  | _ => exact h
+
+theorem ext_of_set {α} {s : St} {y : Nat} {v : Val} {r : Res α × St} (h : Ext (s.set y v) r) : Ext s r := by
+  obtain ⟨t, h⟩ := h
+  exact ⟨t, by simpa [St.set] using h⟩
+
+theorem out_extends (F : FloatOps) : ∀ n,
+    (∀ e s, Ext s (eval F n e s))
+    ∧ (∀ es s, Ext s (evalList F n es s))
+    ∧ (∀ v ch s, Ext s (evalChain F n v ch s))
+    ∧ (∀ es acc s, Ext s (evalEntries F n es acc s))
+    ∧ (∀ arms s, Ext s (evalArms F n arms s))
+    ∧ (∀ es last s, Ext s (evalBlock F n es last s))
+    ∧ (∀ c b acc s, Ext s (evalLoop F n c b acc s))
+    ∧ (∀ x items b acc s, Ext s (evalFor F n x items b acc s)) := by
+  intro n
+  induction n with
+  | zero =>
+    refine ⟨?_, ?_, ?_, ?_, ?_, ?_, ?_, ?_⟩ <;> intros
+    · rw [eval]; exact ext_refl _ _
+    · rw [evalList]; exact ext_refl _ _
+    · rw [evalChain]; exact ext_refl _ _
+    · rw [evalEntries]; exact ext_refl _ _
+    · rw [evalArms]; exact ext_refl _ _
+    · rw [evalBlock]; exact ext_refl _ _
+    · rw [evalLoop]; exact ext_refl _ _
+    · rw [evalFor]; exact ext_refl _ _
+  | succ n ih =>
+    obtain ⟨ihE, ihL, ihC, ihM, ihA, ihB, ihW, ihF⟩ := ih
+    refine ⟨?_, ?_, ?_, ?_, ?_, ?_, ?_, ?_⟩
+    · intro e s
+      cases e <;> simp only [eval] <;>
+        repeat (first
+          | exact ext_refl _ _ | exact ext_set _ _ _ _ | exact ext_push _ _ _ | exact ext_lift _ _
+          | apply ihE | apply ihL | apply ihC | apply ihM | apply ihA | apply ihB | apply ihW | apply ihF
+          | apply ext_seq | apply ext_loopStep
+          | intro _ _
+          | split)
+    · intro es s
+      cases es <;> simp only [evalList] <;>
+        repeat (first
+          | exact ext_refl _ _ | apply ihE | apply ihL | apply ext_seq | intro _ _ | split)
+    · intro v ch s
+      cases ch <;> simp only [evalChain] <;>
+        repeat (first
+          | exact ext_refl _ _ | apply ihE | apply ihC | apply ext_seq | intro _ _ | split)
+    · intro es acc s
+      cases es <;> simp only [evalEntries] <;>
+        repeat (first
+          | exact ext_refl _ _ | apply ihE | apply ihM | apply ext_seq | intro _ _ | split)
+    · intro arms s
+      cases arms <;> simp only [evalArms] <;>
+        repeat (first
+          | exact ext_refl _ _ | apply ihE | apply ihA | apply ext_seq | intro _ _ | split)
+    · intro es last s
+      cases es <;> simp only [evalBlock] <;>
+        repeat (first
+          | exact ext_refl _ _ | apply ihE | apply ihB | apply ext_seq | intro _ _ | split)
+    · intro c b acc s
+      simp only [evalLoop]
+      repeat (first
+        | exact ext_refl _ _ | apply ihE | apply ihW | apply ext_seq | apply ext_loopStep | intro _ _ | split)
+    · intro x items b acc s
+      cases items with
+      | nil => simp only [evalFor]; exact ext_refl _ _
+      | cons item rest =>
+        simp only [evalFor]
+        exact ext_of_set (ext_loopStep (ihE _ _) (fun v s' => ihF _ _ _ _ _))
 
 end KotoVerif.C01
